@@ -501,6 +501,104 @@ Qed.
 Theorem nonpositive_interval_panics T s : ko_result (ka_env 0 T s) = KA_panic.
 Proof. reflexivity. Qed.
 
+(* ---------- the caller's Connect context and the keep-alive context ---------- *)
+Lemma conn_script_background cc peer : forall j, conn_script_from CtxBackground cc j peer = map env_of peer.
+Proof. induction peer as [|o r IH]; intros j; cbn [conn_script_from map]; [reflexivity | rewrite IH; reflexivity]. Qed.
+
+(* whenever and however the caller ends the context it passed to Connect (after Connect
+   succeeded), the keep-alive of the connection, the first one included, runs as if it had not *)
+Theorem caller_cancel_after_connect_irrelevant I T cc peer : 0 < I ->
+  rc_conn_keepalive I T cc peer = rc_keepalive I T peer.
+Proof.
+  intros HI. unfold rc_conn_keepalive, rc_keepalive, ka_parent_ctx, after_connect_success, keepalive.
+  rewrite conn_script_background. reflexivity.
+Qed.
+
+(* non-vacuity / what the statement excludes: were the keep-alive context a child of the
+   caller's context, cancelling it would stop the keep-alive silently and a silent peer would
+   go undetected *)
+Example ex_keepalive_under_caller_ctx :
+  let o := ka_env 1000 5000 (conn_script_from CtxCaller (fun _ => Some Canceled) O [Answered 0; Never]) in
+  ko_result o = KA_returned (ECtx Canceled) /\
+  ka_react 1%nat o false false (fun _ => mk_cli None false) 1%nat = mk_cli None false.
+Proof. vm_compute. split; reflexivity. Qed.
+
+(* ---------- the PINGRESP slot ---------- *)
+Lemma slot_run_app st a b :
+  slot_run st (a ++ b) = slot_run st a ++ slot_run (fold_left (fun s e => fst (slot_step s e)) a st) b.
+Proof.
+  revert st; induction a as [|e a IH]; intros st; cbn [app slot_run fold_left]; [reflexivity|].
+  destruct (slot_step st e) as [st' out] eqn:E. cbn [fst]. rewrite IH, app_assoc. reflexivity.
+Qed.
+
+(* PINGRESPs that arrive while no Ping waits produce nothing and leave nobody waiting *)
+Lemma slot_idle_resps u : forall st, sl_wait st = false ->
+  slot_run st (repeat SResp u) = [] /\
+  sl_wait (fold_left (fun s e => fst (slot_step s e)) (repeat SResp u) st) = false.
+Proof.
+  induction u as [|u IH]; intros st Hw; cbn [repeat slot_run fold_left]; [split; [reflexivity | exact Hw]|].
+  unfold slot_step at 1 3. destruct (sl_chan st) as [[|]|]; cbn [fst app]; try (apply IH; exact Hw).
+  rewrite Hw. cbn [fst app]. apply IH. reflexivity.
+Qed.
+
+(* one ping: whatever the slot held before, the Ping is answered iff a PINGRESP arrives after
+   its PINGREQ, and afterwards nobody waits *)
+Lemma slot_one_ping ur : forall st, sl_wait st = false ->
+  slot_run st (ping_events ur) = [match snd ur with O => SGaveUp | _ => SAnswered end] /\
+  sl_wait (fold_left (fun s e => fst (slot_step s e)) (ping_events ur) st) = false.
+Proof.
+  destruct ur as [u r]. intros st Hw. unfold ping_events. cbn [snd].
+  destruct (slot_idle_resps u st Hw) as (H1 & H2).
+  rewrite slot_run_app, H1, fold_left_app. cbn [app].
+  set (st1 := fold_left _ (repeat SResp u) st) in *.
+  cbn [slot_run fold_left slot_step fst app].
+  destruct r as [|r].
+  - cbn [slot_run fold_left slot_step sl_wait sl_chan fst app]. split; reflexivity.
+  - cbn [repeat slot_run fold_left slot_step sl_wait sl_chan fst app].
+    destruct (slot_idle_resps r (mk_slot (Some false) false) eq_refl) as (G1 & G2).
+    rewrite G1. split; [reflexivity | exact G2].
+Qed.
+
+Lemma slot_pings urs : forall st, sl_wait st = false ->
+  slot_run st (flat_map ping_events urs) = map (fun ur => match snd ur with O => SGaveUp | _ => SAnswered end) urs.
+Proof.
+  induction urs as [|ur urs IH]; intros st Hw; cbn [flat_map map]; [reflexivity|].
+  destruct (slot_one_ping ur st Hw) as (H1 & H2).
+  rewrite slot_run_app, H1. cbn [app]. f_equal. apply IH. exact H2.
+Qed.
+
+Lemma wire_outcomes_eq urs :
+  wire_outcomes urs = map (fun ur => match snd ur with O => Never | _ => Answered 0 end) urs.
+Proof.
+  unfold wire_outcomes. rewrite (slot_pings urs slot_init eq_refl), map_map.
+  apply map_ext. intros [u [|r]]; reflexivity.
+Qed.
+
+(* surplus PINGRESPs (unsolicited ones between pings, duplicates of an answer) are inert: each
+   ping is answered iff the peer answered THAT ping; so a peer that answered n pings (however
+   many times each, with however many unsolicited PINGRESPs in between) and then stays silent is
+   reported after exactly n+1 PINGREQs *)
+Theorem stale_pingresp_inert I T pre u post : 0 < I ->
+  Forall (fun ur => snd ur <> O) pre ->
+  wire_outcomes (pre ++ (u, O) :: post) = answered (repeat 0 (length pre)) ++ Never :: wire_outcomes post /\
+  ko_result (keepalive I T (wire_outcomes (pre ++ (u, O) :: post))) = KA_returned EPingTimeout /\
+  pings (keepalive I T (wire_outcomes (pre ++ (u, O) :: post))) = S (length pre).
+Proof.
+  intros HI Hpre.
+  assert (E : wire_outcomes (pre ++ (u, O) :: post) = answered (repeat 0 (length pre)) ++ Never :: wire_outcomes post).
+  { rewrite !wire_outcomes_eq, map_app. cbn [map snd]. f_equal.
+    induction Hpre as [|[u' r'] pre Hr Hpre IH]; cbn [map length repeat answered]; [reflexivity|].
+    fold (answered (repeat 0 (length pre))). rewrite IH. cbn [snd] in *. destruct r'; [contradiction | reflexivity]. }
+  split; [exact E|]. rewrite E.
+  destruct (timeout_reported I T (repeat 0 (length pre)) (wire_outcomes post) HI) as (H1 & H2).
+  rewrite repeat_length in H2. split; assumption.
+Qed.
+
+Example ex_duplicate_then_silent : (* ping 1 answered twice, an unsolicited PINGRESP, then silence *)
+  wire_outcomes [(O, 2%nat); (1%nat, O)] = [Answered 0; Never]
+  /\ pings (keepalive 1000 5000 (wire_outcomes [(O, 2%nat); (1%nat, O)])) = 2%nat.
+Proof. vm_compute. split; reflexivity. Qed.
+
 (* ---------- the model's times are lower bounds ---------- *)
 (* An execution with arbitrary extra latencies in every iteration: [l0] between the moment the
    tick is due and the moment the loop receives it, [l1] between that and the start of the Ping
